@@ -152,3 +152,14 @@ def _default(obj: Any) -> Any:
 
 def digest(events: Any) -> str:
     return hashlib.sha256(jdump(events).encode()).hexdigest()
+
+
+def through_numpoly(exc: BaseException, numpoly_dir: str) -> bool:
+    """Did the exception propagate out of numpoly code (as opposed to being a
+    bug of the harness itself)?"""
+    tb = exc.__traceback__
+    while tb is not None:
+        if tb.tb_frame.f_code.co_filename.startswith(numpoly_dir):
+            return True
+        tb = tb.tb_next
+    return False
